@@ -833,7 +833,7 @@ def c17_case(g, seed, budget):
             m2.version = v
             attempt(data[:8] + m2.SerializeToString(), "message version field %d" % v, ValueError)
     # truncations
-    cuts = range(8, len(data)) if len(data) < budget else sorted(rng.sample(range(8, len(data)), budget))
+    cuts = range(8, len(data)) if len(data) - 8 <= budget else sorted(rng.sample(range(8, len(data)), budget))
     for cut in cuts:
         attempt(data[:cut], "truncated at %d" % cut)
         if errs:
